@@ -93,6 +93,13 @@ def run(ctx):
     a = F.adts.get("encodings::cmap::ToUnicodeCMap")
     bt = [f["ty"] for v in a["variants"] for f in v["fields"] if f["n"] == "bf_ranges"] if a else []
     m = re.search(r"; (\d+)\]$", bt[0]) if bt else None
+    if m is None and bt:
+        # the length is a named constant: take its value from the compiled constants
+        mn = re.search(r"; ([\w:]+)\]$", bt[0])
+        if mn:
+            vals = [c.get("int") for n_, c in F.consts.items() if (n_ == mn.group(1) or n_.endswith("::" + mn.group(1))) and "int" in c]
+            if len(vals) == 1:
+                m = re.match(r"(\d+)", str(vals[0]))
     consts["map array length"] = m.group(1) if m else "?"
     for fn in ("ToUnicodeCMap::get", "ToUnicodeCMap::put"):
         b = F.fn(fn)
